@@ -369,7 +369,9 @@ class ViolationGenerator:
         # Apply path-based ignore patterns from config
         violations = _filter_by_ignore(violations, config.ignore)
 
-        # Apply inline ignore directives via IgnoreChecker
+        # Apply inline ignore directives via IgnoreChecker (re-reading files: they may have
+        # changed since an earlier run of the same linter object)
+        self._ignore_checker.clear_cache()
         violations = self._ignore_checker.filter_violations(violations)
 
         return violations
